@@ -144,6 +144,14 @@ func (tc *typechecker) checkIdentifier(ident *ast.Identifier, used bool) *typeIn
 		tc.compilation.iteaToUsingCheck[ident.Name] = uc
 	}
 
+	// The constants of the universe block are shared by all the compilations,
+	// and the type info of a constant is changed when its value is set: use a
+	// copy, so that a compilation does not depend on the previous ones.
+	if ti.InUniverse() && ti.IsConstant() {
+		c := *ti
+		ti = &c
+	}
+
 	tc.compilation.typeInfos[ident] = ti
 	return ti
 }
